@@ -117,11 +117,17 @@ def sumTake (l : List Nat) (n : Nat) : Nat := (l.take n).foldl (· + ·) 0
 
 def listSet (l : List Nat) (i v : Nat) : List Nat := l.set i v
 
+/-- codespace / code of a panic recovered by `runTx` -/
+def antePanicCode : String := "undefined/111222"
+
 /-- ante decision of the Ethereum lane (deliver mode); `none` = accepted -/
 def anteReject (s : BState) (t : EthTx) : Option String :=
   if t.sig = .wrongChain then some "sdk/18" else
   if t.sig = .unprotected then some "sdk/37" else
   if declaredPrice t * t.gasLimit = 0 then some "sdk/10" else            -- empty fee coins: exactly one fee coin required
+  -- an effective fee of zero (possible only when the base fee is 0): `sdk.NewCoins` drops the zero coin and the fee
+  -- checker indexes the empty list — a panic, recovered by `runTx`: refused, nothing written
+  if effPrice t s.baseFee * t.gasLimit = 0 then some antePanicCode else
   if effPrice t s.baseFee * t.gasLimit / t.gasLimit < max s.baseFee (floorMin s) then some "sdk/13" else
   if s.bal.get t.sender < effPrice t s.baseFee * t.gasLimit then some "sdk/5" else
   if t.sig = .fromMismatch then some "sdk/24" else
@@ -184,7 +190,12 @@ def stepEth (s : BState) (t : EthTx) (x : Exec) : BState × TxOut :=
     ({ s with blockGas := s.blockGas + x.meterGas }, noOut .preBasic 0 x.meterGas)
   else
   match anteReject s t with
-  | some code => (s, noOut (.anteRejected code) (-1) 0)     -- infinite meter's limit cast to int64; nothing written
+  | some code =>
+    if code = antePanicCode then
+      -- the panic is recovered in `runTx` before the ante handler returns: GasWanted 0, and the reading of the context's own
+      -- meter (the transaction-size gas) is reported and charged to the block; nothing else is written
+      ({ s with blockGas := s.blockGas + x.meterGas }, noOut (.anteRejected code) 0 x.meterGas)
+    else (s, noOut (.anteRejected code) (-1) 0)     -- infinite meter's limit cast to int64; nothing written
   | none =>
     if x.panicked then failedOut s t .panic 0 else
     if cerrCond s t then failedOut s t .cerr t.gasLimit else
@@ -196,8 +207,8 @@ theorem stepEth_cases (s : BState) (t : EthTx) (x : Exec) :
     (blockExhausted s = true ∧ stepEth s t x = (s, noOut .dropped 0 0)) ∨
     (blockExhausted s = false ∧ t.gasLimit < 20999 ∧
       stepEth s t x = ({ s with blockGas := s.blockGas + x.meterGas }, noOut .preBasic 0 x.meterGas)) ∨
-    (blockExhausted s = false ∧ ¬ t.gasLimit < 20999 ∧ ∃ code, anteReject s t = some code ∧
-      stepEth s t x = (s, noOut (.anteRejected code) (-1) 0)) ∨
+    (blockExhausted s = false ∧ ¬ t.gasLimit < 20999 ∧ ∃ code gw gu, anteReject s t = some code ∧
+      stepEth s t x = ({ s with blockGas := s.blockGas + gu }, noOut (.anteRejected code) gw gu)) ∨
     (blockExhausted s = false ∧ ¬ t.gasLimit < 20999 ∧ anteReject s t = none ∧ x.panicked = true ∧
       stepEth s t x = failedOut s t .panic 0) ∨
     (blockExhausted s = false ∧ ¬ t.gasLimit < 20999 ∧ anteReject s t = none ∧ x.panicked = false ∧ cerrCond s t = true ∧
@@ -213,7 +224,12 @@ theorem stepEth_cases (s : BState) (t : EthTx) (x : Exec) :
     by_cases h1 : t.gasLimit < 20999
     · simp [h0', h1]
     · cases h2 : anteReject s t with
-      | some code => simp [h0', h1]
+      | some code =>
+        by_cases hp : code = antePanicCode
+        · refine Or.inr (Or.inr (Or.inl ⟨h0', h1, code, 0, x.meterGas, rfl, ?_⟩))
+          simp [h0', h1, hp]
+        · refine Or.inr (Or.inr (Or.inl ⟨h0', h1, code, -1, 0, rfl, ?_⟩))
+          simp [h0', h1, hp]
       | none =>
         by_cases h3 : x.panicked = true
         · simp [h0', h1, h3]
